@@ -306,7 +306,7 @@ def gen_value(world, t, rng, depth=0):
             return rng.randint(-2, 6)
         if r < 0.95:
             return rng.randint(-40, 60)
-        return rng.choice([2 ** 53 + 1, -(2 ** 40), 10 ** 9 + 7])
+        return rng.choice([2 ** 53 + 1, -(2 ** 40), 10 ** 9 + 7]) if rng.random() < 0.3 else rng.randint(-300, 300)
     if k == "bool":
         return rng.random() < 0.5
     if k == "float":
@@ -350,21 +350,45 @@ def search_counterexample(fc, case, seed=0, tries=3000, budget_s=20):
     """bounded native search with the executable contract (used when a VC on a havocked path fails and the solver's
     model is not a reachable input): returns (replay-dict, model) of a confirmed violation or None"""
     import random
+    import signal
+
+    class _TryTimeout(BaseException):
+        pass
+
+    def _on_vtalrm(signum, frame):
+        raise _TryTimeout()
     rng = random.Random(seed)
     t0 = time.time()
-    for _ in range(tries):
-        if time.time() - t0 > budget_s:
-            break
-        try:
-            m = {p: gen_value(fc.world, t, rng) for p, t in case.params.items()}
-            if case.native_gen is not None:
-                m = dict(case.native_gen(rng, m), __generated__=True)
-            rp = replay_case(fc, case, m)
-        except Exception:  # pylint: disable=broad-except
-            continue
-        if rp.get("confirmed"):
-            rp["found_by"] = "bounded native search with the executable contract"
-            return rp, m
+    # one generated input must not eat the whole budget (a huge loop bound makes the REAL function run "forever"): per-try CPU limit
+    try:
+        old_handler = signal.signal(signal.SIGVTALRM, _on_vtalrm)
+    except ValueError:
+        old_handler = None
+    try:
+        for _ in range(tries):
+            if time.time() - t0 > budget_s:
+                break
+            rp = None
+            try:
+                if old_handler is not None:
+                    signal.setitimer(signal.ITIMER_VIRTUAL, 3.0)
+                m = {p: gen_value(fc.world, t, rng) for p, t in case.params.items()}
+                if case.native_gen is not None:
+                    m = dict(case.native_gen(rng, m), __generated__=True)
+                rp = replay_case(fc, case, m)
+            except _TryTimeout:
+                continue
+            except Exception:  # pylint: disable=broad-except
+                continue
+            finally:
+                if old_handler is not None:
+                    signal.setitimer(signal.ITIMER_VIRTUAL, 0)
+            if rp and rp.get("confirmed"):
+                rp["found_by"] = "bounded native search with the executable contract"
+                return rp, m
+    finally:
+        if old_handler is not None:
+            signal.signal(signal.SIGVTALRM, old_handler)
     return None
 
 
@@ -433,20 +457,22 @@ def obligations_for(pid, fc: FnContract, tier="quick", finding=None, timeout=Non
                                replay=rp, extra=dict(extra, model=r["model"]))
             if r["status"] == FAULT:
                 return Outcome(FAULT, "pyvc", r["detail"], extra=extra)
-            if not r.get("unsupported") or getattr(case, "standin_on_unsupported", False):
-                # (opt-in per case, additive: `case.standin_on_unsupported = True` runs the same bounded stand-in when an edit took the
-                # function out of the extractor's reach -- DESIGN 2.6: a replayed counterexample is a violation, nothing else changes)
-                # the solver gave no verdict (quantified VCs rarely yield models): an undischarged obligation is not a violation,
-                # but a failing input of the REAL function against the executable contract is -- bounded native search
-                try:
-                    found = search_counterexample(fc, case, budget_s=30)
-                except Exception:  # pylint: disable=broad-except
-                    found = None
-                if found:
-                    rp, model = found
-                    return Outcome(REFUTED, "z3(unknown)+native-search", f"obligation not discharged ({r['detail']}); the real function "
-                                   "violates the executable contract on a generated input", witness=dict(inputs=S.show(model)),
-                                   replay=rp, extra=dict(extra, model=model))
+            # the solver gave no verdict (quantified VCs rarely yield models), or an edit took the function out of the extractor's
+            # subset: an undischarged obligation is not a violation, but a failing input of the REAL function against the
+            # executable contract is -- bounded native search (DESIGN 2.6: the bounded stand-in of a function that left reach)
+            searched = False
+            try:
+                found = search_counterexample(fc, case, budget_s=30)
+                searched = True
+            except Exception:  # pylint: disable=broad-except
+                found = None
+            if found:
+                rp, model = found
+                return Outcome(REFUTED, "native-search", f"obligation not discharged ({r['detail']}); the real function "
+                               "violates the executable contract on a generated input", witness=dict(inputs=S.show(model)),
+                               replay=rp, extra=dict(extra, model=model))
+            if r.get("unsupported") and searched:
+                extra = dict(extra, standin="passed", standin_bound="bounded native search with the executable contract, 30 s / 3000 inputs")
             return Outcome(UNDECIDED, "pyvc", r["detail"], extra=extra)
 
         def replay(witness, fc=fc, case=case):
